@@ -55,6 +55,8 @@ sys.exit(1 if bad else 0)
 
 
 def replay(ob):
+    if "dft_19_20.an_absent_axis_attribute" in ob["name"]:
+        return "import runpy, sys\nsys.argv = ['c10_dft']\nrunpy.run_path('/verif/replay_lib/c10_dft_default_axis.py', run_name='__main__')\n"
     n = ob["name"]
     if "when_an_adapter_raised" in n:
         return RAISED
